@@ -352,9 +352,10 @@ def similarity(ctx, R):
         from lib import effective_sites, adaptor_of_closure, subst_upvars
         for site, c, o in effective_sites(ctx.F, vb, VKIND + '::distance_to_weight'):
             if o is vb:
-                conds = path_conditions(vb, c.bb)
-                ok = any(k.kind == 'bool' and k.truth is True and k.expr.kind == 'call' and
-                         k.expr.name.endswith('is_ok') for k in conds)
+                from lib import expand_conditions
+                ok = all(any(k.kind == 'bool' and k.truth is True and k.expr.kind == 'call' and
+                             k.expr.name.endswith('is_ok') for k in conds)
+                         for conds in expand_conditions(vb, path_conditions(vb, c.bb)))
             else:
                 # `is_ok(d).then(|| distance_to_weight(d))`: the closure runs exactly when the receiver is true
                 apb, ac = adaptor_of_closure(ctx.F, vb, o)
